@@ -552,17 +552,16 @@ func (q *Query) text(p *prep, insts []*sx.T, withQuants bool, seed int) string {
 var Solvers = [][]string{{"z3-new"}, {"z3"}, {"cvc5", "--strings-exp"}}
 
 func statusOf(out string) string {
-	// a solver error (undeclared symbol, sort mismatch) is an engine bug, never a verdict; the only
-	// tolerated error is z3 4.8.12 complaining about get-value after unsat
-	for _, ln := range strings.Split(out, "\n") {
-		if strings.Contains(ln, "(error") && !strings.Contains(ln, "model is not available") {
-			return "error"
-		}
-	}
+	// A solver error before the verdict (undeclared symbol, sort mismatch) is an engine bug, never a
+	// verdict: z3 skips the offending assertion and would answer on the rest. Errors after the verdict
+	// (get-value after unsat) are harmless.
 	for _, ln := range strings.Split(out, "\n") {
 		ln = strings.TrimSpace(ln)
 		if ln == "sat" || ln == "unsat" || ln == "unknown" {
 			return ln
+		}
+		if strings.Contains(ln, "(error") {
+			return "error"
 		}
 	}
 	return "unknown"
@@ -600,12 +599,13 @@ func race(text string, timeout time.Duration, dumpTo string) (status, solver, ra
 	best := res{st: "unknown"}
 	for range Solvers {
 		r := <-ch
-		if r.st == "sat" || r.st == "unsat" || r.st == "error" {
+		if r.st == "sat" || r.st == "unsat" {
 			best = r
 			cancel()
 			break
 		}
-		if best.solver == "" {
+		// an error of one back end (syntax it does not accept) is decisive only if no other back end answers
+		if best.solver == "" || (r.st == "error" && best.st != "error") {
 			best = r
 		}
 	}
